@@ -143,6 +143,9 @@ def run(coro_factory, loop: VLoop | None = None, close=True):
             out = ('hang', str(ex))
         except BaseException as ex:        # noqa: the caller classifies it
             out = ('exc', ex)
+        loop.open_at_return = len(loop.open_transports())      # transports open (not closing) at the moment the coroutine returned
+        loop.run_until_complete(asyncio.sleep(0)) if out[0] != 'hang' and not loop.is_closed() else None
+        loop.open_after_return = len(loop.open_transports())   # ... and one loop iteration later
         return loop, out
     finally:
         asyncio.set_event_loop(None)
